@@ -15,7 +15,11 @@ func (r *Reader) ReadFTYP() (err error) {
 	if err != nil {
 		return errors.Wrapf(err, "ReadFTYPBox")
 	}
-	r.ftyp, err = parseFileTypeBox(&b)
+	if r.ftyp, err = parseFileTypeBox(&b); err != nil {
+		// the box has been processed, whatever it was: the reader is left at the
+		// next top-level box
+		b.close()
+	}
 	return err
 }
 
